@@ -169,7 +169,11 @@ func routerSendSites(p *Prog, fnName string) []sendSite {
 						out = append(out, sendSite{x, cs.Call, id, cs.Call.Args[0]})
 					}
 				}
-			case "var:yield":
+			}
+		}
+		// an iterator literal hands (peer, rpc) pairs to its consumer, whatever the consumer parameter is called
+		if x.Lit != nil {
+			for _, cs := range p.YieldSites(x) {
 				if len(cs.Call.Args) == 2 {
 					out = append(out, sendSite{x, cs.Call, cs.Call.Args[0], cs.Call.Args[1]})
 				}
